@@ -24,7 +24,8 @@ import Hgxv.Model.C12Ext
   `callin <order|N> <size|N> <n>` / `callout ..`         -> degree | `rej` (the call raises)
   `seqin <order|N> <size|N>` / `seqout ..`               -> `n:deg,...` | `rej`
   `sums <size|-1>`        -> `sum in-degrees,sum out-degrees,sum source sizes,sum target sizes,sum sizes`
-  `lexact m` / `lstrong m` / `lweak m`                   -> the tables computed loop by loop
+  `lexact m` / `lstrong m` / `lweak m`                   -> the tables computed loop by loop (one-pass first loop)
+  `ltabs m`               -> `tot;rec exact;rec strong;rec weak` (indices `0..m`) before the division
   `lsig m` / `sigdef`     -> the flattened 2-d accumulation / with the default bound
   `sigagg m`              -> `source-weighted,target-weighted,diag 2,...,diag m` of `signature m`
   `rev`                   -> the current hypergraph becomes its reverse; `<sources> <targets>` -/
@@ -108,9 +109,14 @@ def step (s : St) : List String → St × String
     let f := sizeArg k
     (s, showNats [sumInDegrees s.nodes s.es f, sumOutDegrees s.nodes s.es f, sumSourceSizes s.es f,
                   sumTargetSizes s.es f, ((selected s.es f).map esize).sum])
-  | ["lexact", m] => (s, showTable (exactLoop s.es m.toNat!))
-  | ["lstrong", m] => (s, showTable (strongLoop s.es m.toNat!))
-  | ["lweak", m] => (s, showTable (weakLoop s.es m.toNat!))
+  | ["lexact", m] => (s, showTable (exactRun s.es m.toNat!))
+  | ["lstrong", m] => (s, showTable (strongRun s.es m.toNat!))
+  | ["lweak", m] => (s, showTable (weakRun s.es m.toNat!))
+  | ["ltabs", m] =>
+    let m := m.toNat!
+    let st := firstLoop s.es m
+    (s, showNatss [st.tot, recLoop (exactTest st.edgeSet) st.edgeSet m, recLoop (strongTest st.reach) st.edgeSet m,
+                   recLoop (weakTest st.bins) st.edgeSet m])
   | ["lsig", m] => (s, showNats (signatureLoop s.es m.toNat!))
   | ["sigdef"] => (s, showNats (signatureDefault s.es))
   | ["sigagg", m] =>
